@@ -216,6 +216,8 @@ K("O10.1f", ["C10"], "compiler", "c10_add_constant_float", level="bounded", boun
 # ---------------------------------------------------------------------------------------------
 # C11 structured control flow
 # ---------------------------------------------------------------------------------------------
+V("O11.h", ["C11"], "c11_stop_height", vacuity_quick=False, functions=["Compiler::compile_statement arm Stmt::Break", "Compiler::compile_statement arm Stmt::Continue"],
+  desc="KNOWN FINDING (fails on the current tree, listed in known-findings.txt): the jump of a stop / volgende leaves from the static height its loop expects. False when the statement is compiled under pending temporaries of an enclosing expression: the real code drops nothing, every such jump leaves residue on the operand stack")
 V("O11.1", ["C11", "C02", "C05"], "c11_control", expect_verified=10,
   functions=["to_u16", "to_u8", "LoopContext::new", "Compiler::last_instruction_is", "Compiler::remove_last_instruction",
              "Compiler::compile_statement arm Stmt::Break", "Compiler::compile_statement arm Stmt::Continue",
@@ -371,10 +373,10 @@ PROPERTIES = {
     },
     "C11": {
         "level": "proof",
-        "claim": "Jump emission and patching are proved per arm on the real compiler code (Verus, verbatim arms Expr::If, Expr::While, Stmt::Break, Stmt::Continue for code buffers and loop nestings of every size): every jump of an if / while / stop / volgende ends up targeting exactly the position the construct's meaning requires, stop/volgende touch the innermost loop context only, and misplaced ones are rejected before anything is emitted; the machine's Jump / JumpIfFalse / Pop / Null arms do what the operands say (unit c02_arms); operand patching changes exactly two bytes (Kani).",
+        "claim": "Jump emission and patching are proved per arm on the real compiler code (Verus, verbatim arms Expr::If, Expr::While, Stmt::Break, Stmt::Continue for code buffers and loop nestings of every size): every jump of an if / while / stop / volgende ends up targeting exactly the position the construct's meaning requires, stop/volgende touch the innermost loop context only, and misplaced ones are rejected before anything is emitted; the machine's Jump / JumpIfFalse / Pop / Null arms do what the operands say (unit c02_arms); operand patching changes exactly two bytes (Kani). Static stack typing (ghost height): every branch of an if leaves exactly one value and both meet at the same height (null is pushed for a branch that has none), a loop iteration leaves the height it found (no residue) and the loop expression leaves exactly one value. ONE KNOWN FINDING (O11.h, known-findings.txt): stop / volgende compiled under pending temporaries of an enclosing expression leave those temporaries behind.",
         "note": "Trusted: Verus/Z3, extraction rules R1,R4,R4d,R12,R13 + ghost hints (erased). The induction hypothesis the arms use for their recursive calls (gen_post in prelude_compiler.rs: on success append-only, peephole invariant kept, loop nesting restored, only well-formed stop jumps recorded, constants only grow, scope shape restored) is PROVED: every arm and compile_block_statement ensure it (lemmas genpost_lemmas.rs), and unit c02_dispatch verifies compile_expression / compile_statement as whole functions (real match, every arm outlined, rule R15) against it. Residual assumption: an Infix node carries a binary operator (parser fact; otherwise compile_operator panics). NOT decided: the VALUE of a branch / absence of residue per iteration (needs stack typing of the emitted code), antwoord from nested depth (composition with C12).",
         "design_ref": "DESIGN.md 3.8",
-        "undecided": ["branch values and stack balance per iteration (compile-side stack typing)"],
+        "undecided": ["which VALUE a branch leaves (only that it leaves exactly one)", "heights at stop / volgende jumps: KNOWN FINDING O11.h (residue when compiled under pending temporaries)"],
         "assumptions": ["every Infix node carries a binary operator (precondition of the dispatcher obligation O02.ind; parser fact)", "termination of the recursive generators (structural recursion over the tree; Verus checks partial correctness of exec code)"],
     },
     "C10": {
@@ -395,10 +397,10 @@ PROPERTIES = {
     },
     "C02": {
         "level": "proof",
-        "claim": "VM side of memory safety: every one of the 45 dispatch arms, sliced verbatim, is verified (Verus, unbounded) to read its operand bytes inside the code, to pop only what its precondition says is there, to index constants/locals/globals in range, and to move ip by exactly the operand width the compiler records; the unchecked helpers read_u8/read_u16/pop/next and OpCode::from meet those contracts on the real code (Kani). So the unchecked fast paths are safe for every bytecode that satisfies the arm preconditions.",
-        "note": "Trusted: Verus/Z3, Kani/CBMC, extraction rules. NOT decided (explicit assumption): that compile_ast emits bytecode satisfying the arm preconditions at every step for every AST (stack typing through compile_expression, the remove_last_instruction peephole).",
+        "claim": "VM side of memory safety: every one of the 45 dispatch arms, sliced verbatim, is verified (Verus, unbounded) to read its operand bytes inside the code, to pop only what its precondition says is there, to index constants/locals/globals in range, and to move ip by exactly the operand width the compiler records; the unchecked helpers read_u8/read_u16/pop/next and OpCode::from meet those contracts on the real code (Kani). So the unchecked fast paths are safe for every bytecode that satisfies the arm preconditions. Compile side: every arm of the code generator, compile_block_statement / compile_block_value and the two generators as whole functions are verified against the generator contract (gen_post) AND against a static stack typing (ghost height, opcodes.rs): an expression leaves exactly one value, a statement none, a block used as a value exactly one, both branches of an if and the loop back edge / exit meet at equal heights, nothing falls out of the end of a function body; the per-opcode effects the typing uses are proved of all 42 machine arms (op_delta).",
+        "note": "Trusted: Verus/Z3, Kani/CBMC, extraction rules. NOT decided: that consistent static heights imply the arm preconditions at every step of every run (soundness of the height typing against VM::run as a whole: needs a verified semantics of the dispatch loop); operand ranges of local slots at run time; the heights at stop / volgende jumps (known finding O11.h). The ghost joins (which jump lands where) are placed by the unit templates next to the patch calls; that a patch targets the position where the join is placed is proved by the layout contracts of the same arm (if_jumps, while_post).",
         "design_ref": "DESIGN.md 3.5",
-        "undecided": ["compile_ast emits typed bytecode for every AST (compiler half of the property)", "induction over steps (step lemma) is an argument over the arm contracts, not a verified loop"],
+        "undecided": ["static heights consistent => arm preconditions at every step (soundness of the typing; needs a semantics of VM::run)", "heights at stop / volgende jumps (known finding O11.h)", "induction over steps (step lemma) is an argument over the arm contracts, not a verified loop"],
         "assumptions": ["arm preconditions hold at every step"],
     },
     "C14": {
